@@ -572,6 +572,9 @@ func c02Request(t *core.T, s *c02State, v *sim.View) *c02Req {
 		r.Amounts[k.Std[t.R.Intn(len(k.Std))]] = val
 		r.Target = t.R.Bytes(20)
 		r.LockTime = 0
+		if t.R.Chance(40) && len(k.Std) > 0 {
+			r.From = k.Std[t.R.Intn(len(k.Std))] // binding drafts take a sender address too
+		}
 	case "manual":
 		// explicit inputs: mostly own coins (any class, any maturity), sometimes foreign / spent ones
 		var own []*sim.Out
